@@ -8,6 +8,7 @@ _sp_cache = {}
 
 def _sp(tmp, wr, wa, wo):
     k = (wr, wa, wo)
+    _sp_cache.clear()          # a fresh SP per evaluation: outcomes must not depend on what the SP saw before
     if k not in _sp_cache:
         opts = {}
         if wr is not None:
@@ -54,11 +55,13 @@ def cells(thorough):
                     if cor.endswith('wrongkey') and not thorough:
                         continue
                     for ident in (IDENTS if thorough else ['id0'] if (cor != 'none') else IDENTS):
-                        out.append(dict(wr=wr, wa=wa, wo=wo, sr=sr, sa=sa, enc=enc, cor=cor, ident=ident))
+                        out.append(dict(wr=wr, wa=wa, wo=wo, sr=sr, sa=sa, enc=enc, cor=cor, ident=ident, primed=False))
+                        if ident == 'id0':
+                            out.append(dict(wr=wr, wa=wa, wo=wo, sr=sr, sa=sa, enc=enc, cor=cor, ident=ident, primed=True))
     # defaults row group: options absent from the configuration must behave as documented defaults
     for sr, sa in itertools.product(opts, repeat=2):
         for enc in (False, True):
-            out.append(dict(wr=None, wa=None, wo=None, sr=sr, sa=sa, enc=enc, cor='none', ident='id0'))
+            out.append(dict(wr=None, wa=None, wo=None, sr=sr, sa=sa, enc=enc, cor='none', ident='id0', primed=False))
     if thorough:
         # two-assertion / advice variants are covered by C01/C17; here: second identity under every corruption
         pass
@@ -101,11 +104,23 @@ def expected(cell):
     return req_met and all_valid
 
 
+PRISTINE = {}
+
+
 def evaluate(cell):
     env.Clock.set(env.BASE)
     env.reset_rng()
     env.Seam.reset()
     sp = _sp(TMP[0], cell['wr'], cell['wa'], cell['wo'])
+    if cell.get('primed'):
+        # non-initial state: the same SP has just accepted a genuine, fully signed message with the same IDs
+        if cell['enc'] not in PRISTINE:
+            PRISTINE[cell['enc']] = forge.build(env.BASE, assertions=[dict(IDENTS['id0'])], sign_resp='idpA', sign_ass='idpA',
+                                                encrypt='spXenc1' if cell['enc'] else None)
+        first = oracle.accept_response(sp, PRISTINE[cell['enc']])
+        if not first['accept']:
+            return {'accept': False, 'exc': 'PRIMING-REJECTED:%s' % first.get('exc'), 'tool_calls': 0, 'subject': None}
+        env.Seam.reset()
     xml = build(cell, env.BASE)
     # resp-content corruption edits InResponseTo req1->req2: keep the confirmation consistent is not needed,
     # the response signature is broken either way and rejection is required.
@@ -126,7 +141,11 @@ def run(ctx):
         exp = expected(c)
         outcomes[(r['accept'], r['exc'])] = outcomes.get((r['accept'], r['exc']), 0) + 1
         key = dict(c)
-        if r['accept'] != exp:
+        if (r['exc'] or '').startswith('PRIMING-REJECTED'):
+            key = dict(c)
+            key['kind'] = 'rejected-but-must-accept'
+            ctx.violation(key, {'observed': r, 'note': 'the pristine fully signed message was rejected'})
+        elif r['accept'] != exp:
             key['kind'] = 'accepted-but-must-reject' if r['accept'] else 'rejected-but-must-accept'
             ctx.violation(key, {'observed': r, 'expected_accept': exp})
         elif r['accept'] and r['subject'] != forge_subject(c):
@@ -144,7 +163,7 @@ def run(ctx):
         'level': 'exploration',
         'coverage': {
             'evaluations': len(cs), 'distinct_nontrivial': len(nontrivial),
-            'rule': 'complete product: 8 want_* settings (+ options-absent row group) x {response,assertion} signed x plain/encrypted x corruption kind (content edit / SignatureValue flip%s of each present signature) x identities; non-trivial = at least one requirement enabled or one signature present; distinct = distinct cell coordinates' % (' / signed by a non-metadata key' if ctx.thorough else ''),
+            'rule': 'complete product: 8 want_* settings (+ options-absent row group) x {response,assertion} signed x plain/encrypted x corruption kind (content edit / SignatureValue flip%s of each present signature) x identities x {fresh SP, SP that has just accepted a genuine message with the same IDs}; non-trivial = at least one requirement enabled or one signature present; distinct = distinct cell coordinates' % (' / signed by a non-metadata key' if ctx.thorough else ''),
             'samples': samples, 'exhaustive': True, 'accepted_cells': n_acc,
             'distinct_outcomes': len(outcomes), 'outcome_histogram': {'%s/%s' % k: v for k, v in sorted(outcomes.items(), key=str)},
             'dimensions': {'want_response_signed': [False, True, 'absent'], 'want_assertions_signed': [False, True, 'absent'],
@@ -162,7 +181,7 @@ def forge_subject(c):
 
 def replay(ctx, w):
     TMP[0] = ctx.tmp
-    cell = {k: w[k] for k in ('wr', 'wa', 'wo', 'sr', 'sa', 'enc', 'cor', 'ident')}
+    cell = {k: w.get(k) for k in ('wr', 'wa', 'wo', 'sr', 'sa', 'enc', 'cor', 'ident', 'primed')}
     r = evaluate(cell)
     exp = expected(cell)
     return {'violation': r['accept'] != exp, 'observed': r, 'expected_accept': exp}
